@@ -28,6 +28,10 @@ DOCTYPE = "<!DOCTYPE html>\n"
 def rand_dep(rng, ids, nested_dep=False):
     n = ids.next("x")[:-1]
     d = {"k": "dep", "name": rng.choice(["da", "db", "dc", "dd"]), "version": rng.choice(["1.0", "1.9", "1.10", "2.0.1"]), "_mark": n}
+    if rng.random() < 0.15:
+        d["sub"] = True
+    if rng.random() < 0.15:
+        d["version_object"] = True
     s = rng.random()
     if s < 0.4:
         d["source"] = {"subdir": rng.choice(["libdir", "some/dir"])}
